@@ -18,7 +18,7 @@ PROP = "C01"
 U32 = 1 << 32
 U64 = 1 << 64
 HARNESS = {"internal/index/zz_verif_c01_test.go": os.path.join(ROOT, "harness/c01/zz_verif_c01_test.go")}
-MODEL_DEPS = ["theories/IndexFormat.v"]
+MODEL_DEPS = ["theories/IndexFormat.v", "theories/IndexFormatPop.v"]
 
 
 # ------------------------------------------------------------------ payload pattern / formatting
@@ -463,6 +463,69 @@ def gen_big_hosts(rng, name, v6, extra=6, hit="client_then_server"):
     return c
 
 
+def gen_full_group(rng, name, v6):
+    """A host group filled EXACTLY to its limit (16384 IPv4 / 4096 IPv6 hosts) by tiny streams, then streams in every
+    relation to the full group, in random order: known client + new server (the server does not fit: the undo must not
+    touch the group), new client + known server, both new, both known, known pairs straddling the two groups. New hosts are
+    never repeated, so a host wrongly dropped from the full group is not brought back by a later stream."""
+    cap = 4096 if v6 else 16384
+    size = 16 if v6 else 4
+    pref = bytes([rng.randrange(1, 200)])
+
+    def host(i):
+        return (pref + (i + 1).to_bytes(size - 1, "big")).hex()
+
+    ss = []
+    src = Src(rng, 2)
+    tb = 1_600_000_000 * 10 ** 9 + rng.randrange(10 ** 9)
+    sid = [0]
+
+    def mk(ca, sa):
+        t0 = tb + sid[0] * 1000_000
+        ss.append({"id": sid[0] * 2 + 5, "flags": sid[0] & 2, "ca": ca, "cp": 1000 + sid[0] % 60000, "sa": sa, "sp": 80,
+                   "pk": [[t0 // 10 ** 9, t0 % 10 ** 9, sid[0] & 1, [src.take()]]], "da": [[0, 1 + sid[0] % 3, sid[0] & 0xff]]})
+        sid[0] += 1
+
+    order = list(range(cap))
+    rng.shuffle(order)
+    for i in range(0, cap, 2):
+        mk(host(order[i]), host(order[i + 1]))
+    nxt = [cap]
+
+    def new():
+        nxt[0] += 1
+        return host(nxt[0] + 7)
+
+    def known():
+        return host(rng.randrange(cap))
+    later = []          # hosts that went to group 1
+    shapes = ["kc_ns", "kc_ns", "nc_ks", "nn", "kk", "kc_ns", "g1_g0", "g0_g1", "g1_g1", "kc_ns", "nc_ks", "kk"]
+    rng.shuffle(shapes)
+    for sh in shapes:
+        if sh == "kc_ns":
+            b = new(); mk(known(), b); later.append(b)
+        elif sh == "nc_ks":
+            a = new(); mk(a, known()); later.append(a)
+        elif sh == "nn":
+            a, b = new(), new(); mk(a, b); later += [a, b]
+        elif sh == "kk":
+            mk(known(), known())
+        elif sh == "g1_g0" and later:
+            mk(rng.choice(later), known())
+        elif sh == "g0_g1" and later:
+            mk(known(), rng.choice(later))
+        elif sh == "g1_g1" and later:
+            mk(rng.choice(later), rng.choice(later))
+        else:
+            mk(known(), known())
+    # streams of the full group again, in particular its last hosts
+    mk(host(order[-1]), host(order[-2]))
+    mk(host(order[-3]), host(order[0]))
+    c = {"name": name, "regime": "full_group_v6" if v6 else "full_group_v4", "streams": ss}
+    add_probes(rng, c)
+    return c
+
+
 def gen_turns_stream(rng, sid, hosts, src, t0_ns, nturns, big_every=0):
     """a chatty stream: nturns data packets with alternating direction -> nturns segmentation varints
     (1 byte each for sizes < 128, 2 bytes with big_every: sizes >= 128). Internal buffers of the code under test:
@@ -690,14 +753,20 @@ def main(tier, seed, replay=None):
         # host-group overflow: the cheap IPv6 one always, IPv4 in both boundary shapes
         cases.append(gen_big_hosts(rng, "big_v6_cs", True, hit="client_then_server"))
         cases.append(gen_big_hosts(rng, "big_v4_cs", False, hit="client_then_server"))
+        # a group filled exactly, then known/new clients and servers in every combination
+        cases.append(gen_full_group(rng, "full_v6", True))
+        cases.append(gen_full_group(rng, "full_v4", False))
         if tier != "quick":
             cases.append(gen_big_hosts(rng, "big_v6_even", True, hit="even"))
             cases.append(gen_big_hosts(rng, "big_v4_even", False, hit="even", extra=40))
+            for j in range(3):
+                cases.append(gen_full_group(rng, "full_v6_%d" % j, True))
+            cases.append(gen_full_group(rng, "full_v4_1", False))
     bad = [(c["name"], wf_case(c)) for c in cases if wf_case(c)]
     if bad and not replay:
         raise RuntimeError("generator produced inputs outside wf_input: %r" % bad[:3])
     # the model runs the big IPv4 case only in the thorough tier (O(n^2) table search on Coq numbers)
-    mcases = [c for c in cases if not (tier == "quick" and c["name"].startswith("big_v4"))]
+    mcases = [c for c in cases if not (tier == "quick" and (c["name"].startswith("big_v4") or c["name"].startswith("full_v4")))]
     impl, model, note, times = execute(cases, "main", exe, model_cases=mcases)
     nviol = 0
     kinds = {}
